@@ -146,3 +146,252 @@ def check_c01(tier, t0):
 
 
 CHECKS = {"C01": check_c01}
+
+
+# ---------------------------------------------------------------------------------------
+# C03 compile-time evaluation
+# ---------------------------------------------------------------------------------------
+PYOP = {"add": "+", "sub": "-", "mul": "*", "div": "/", "pow": "**", "mod": "%", "and": "and", "or": "or", "xor": "^", "band": "&",
+        "sll": "<<", "srl": ">>", "eq": "==", "ne": "!=", "lt": "<", "le": "<=", "gt": ">", "ge": ">="}
+
+
+def lit_of(v):
+    from fractions import Fraction
+    fr = Fraction(v[0], v[1])
+    if fr.denominator == 1:
+        s = str(fr.numerator)
+    else:
+        s = repr(float(fr))
+        assert Fraction(s) == fr, "grid value must be a finite decimal"
+    return "(%s)" % s if fr < 0 else s
+
+
+def expr_of(p):
+    if p["op"] == "neg":
+        return "-%s" % lit_of(p["a"])
+    if p["op"] == "not":
+        return "not %s" % lit_of(p["a"])
+    return "%s %s %s" % (lit_of(p["a"]), PYOP[p["op"]], lit_of(p["b"]))
+
+
+def fold_shapes():
+    """propagation shapes: the folded value travels through variables, calls, returns, lists, conditions"""
+    L, H = corpus._loop, corpus.HEADER
+    return [
+        ("fs_var_chain", L("ka = 3\nkb = ka * 4 + 1\nkc = kb - ka\nd0.Setting = kc\nd1.Setting = kb / 2")),
+        ("fs_arg_const", H + "def fa(xa):\n    return xa * 2 + 1\nwhile True:\n    d0.Setting = fa(3)\n    yield_()\n"),
+        ("fs_arg_const_twice", H + "def fa(xa):\n    return xa * 2 + 1\nwhile True:\n    d0.Setting = fa(3)\n    d1.Setting = fa(5) + fa(d0.Setting)\n    yield_()\n"),
+        ("fs_return_const", H + "def fk():\n    return 6 * 7 - 2\nwhile True:\n    d0.Setting = fk() + 1\n    yield_()\n"),
+        ("fs_list_const_index", L("vals = [3, 5, 9]\nd0.Setting = vals[1] + vals[2] * 2\nd1.Setting = vals[0]")),
+        ("fs_if_const", L("if 3 > 2:\n    d0.Setting = 1\nelse:\n    d0.Setting = 2\nif 2 - 2:\n    d1.Setting = 3\nelse:\n    d1.Setting = 4")),
+        ("fs_if_not_const", L("if not 0:\n    d0.Setting = 1\nif not 3:\n    d0.Setting = 2\nelse:\n    d1.Setting = 5")),
+        ("fs_overwritten_not_folded", L("ka = 3\nka = ka + d1.Setting\nd0.Setting = ka * 2")),
+        ("fs_assigned_in_loop", L("ka = 1\nfor idx in range(3):\n    ka = ka * 2\nd0.Setting = ka + 1")),
+        ("fs_global_changed_by_call", H + "ka = 3\ndef fm():\n    global ka\n    ka = 5\nwhile True:\n    d0.Setting = ka\n    fm()\n    d1.Setting = ka * 2\n    yield_()\n"),
+        ("fs_cond_expr", L("d0.Setting = 7 if 2 > 1 else 9\nkb = 4 if 0 else 6\nd1.Setting = kb + 1")),
+        ("fs_bool_ops", L("d0.Setting = (3 > 2) and (2 > 5)\nd1.Setting = (1 == 1) or (2 < 1)\nd2.Setting = not (3 > 2)")),
+        ("fs_hash_compare", L('d0.Setting = HASH("abc") == HASH("abc")\nd1.Setting = HASH("abc") != HASH("abd")')),
+        ("fs_mixed", L("ka = 8\nva = d0.Setting\nd1.Setting = va + ka * 2 - 16 / ka\nd2.Setting = (ka > 3) + va")),
+        ("fs_math_exact", L("d0.Setting = sqrt(9) + cos(0) + sin(0) + exp(0) + log(1)\nd1.Setting = sqrt(2.25)")),
+        ("fs_nested_calls", H + "def fa(xa):\n    return xa + 1\ndef fb(xa):\n    return fa(xa) * fa(2)\nwhile True:\n    d0.Setting = fb(3)\n    d1.Setting = fb(d0.Setting)\n    yield_()\n"),
+    ]
+
+
+def guarded_pair(p):
+    """the same computation with literal operands and with operands loaded from devices, both guarded so that only the
+    environment in which the devices hold exactly these numbers produces an effect (Equiv2 shares one environment)"""
+    a, b = lit_of(p["a"]), lit_of(p["b"])
+    unary = p["op"] in ("neg", "not")
+    head = "va = d0.Setting\n" + ("" if unary else "vb = d1.Setting\n")
+    guard = "if va == %s:\n" % a + ("    d2.Setting = %s\n" if unary else "    if vb == %s:\n        d2.Setting = %%s\n" % b)
+    if unary:
+        dyn = ("-va" if p["op"] == "neg" else "not va")
+    else:
+        dyn = "va %s vb" % PYOP[p["op"]]
+    const = corpus._loop(head + guard % expr_of(p))
+    dynp = corpus._loop(head + guard % dyn)
+    return const, dynp
+
+
+def check_c03(tier, t0):
+    import random
+    from fractions import Fraction
+
+    import checks_text as CT
+
+    rep = Reporter("C03")
+    # ---- part 1: the grid, enumerated by TLC ------------------------------------------------
+    g = CT.tlc("C03_grid", "FoldGrid", "SPECIFICATION SpecGen\nINVARIANT ExportGrid\nCHECK_DEADLOCK FALSE\n", workers=4, timeout=900)
+    if not g.ok:
+        raise MachineryError("FoldGrid.tla (grid) failed:\n" + g.out[-2000:])
+    pts = [json.loads(p[1]) for p in g.tagged("POINT")]
+    pts.sort(key=lambda p: json.dumps(p, sort_keys=True))
+    if len(pts) < 1000:
+        raise MachineryError("grid has only %d points" % len(pts))
+    rnd = random.Random(seed() + 3)
+    if tier == "quick":
+        by_op = {}
+        for p in pts:
+            by_op.setdefault(p["op"], []).append(p)
+        pts = [p for op, ps in sorted(by_op.items()) for p in rnd.sample(ps, min(len(ps), 70))]
+    per = 15
+    jobs, groups = [], []
+    for k in range(0, len(pts), per):
+        grp = pts[k:k + per]
+        jobs.append({"src": corpus.HEADER + "".join("d0.Setting = %s\n" % expr_of(p) for p in grp), "options": cw.REF})
+        groups.append(grp)
+    res = cw.compile_many(jobs)
+    cases, cmeta = [], []
+    nerr = 0
+    for grp, r, j in zip(groups, res, jobs):
+        code = CL.code_of(r)
+        if code is None:
+            # one expression the compiler rejects (e.g. division by zero) rejects the whole program: compile singly
+            single = cw.compile_many([{"src": corpus.HEADER + "d0.Setting = %s\n" % expr_of(p), "options": cw.REF} for p in grp])
+            pieces = [(p, CL.code_of(x)) for p, x in zip(grp, single)]
+        else:
+            pieces = None
+        if pieces is None:
+            prog = ic10load.load(code)
+            stores = [k for k, i in enumerate(prog) if i["op"] == "s"]
+            if len(stores) != len(grp):
+                raise MachineryError("cannot align grid program with its output:\n%s\n%s" % (j["src"], code))
+            prev = -1
+            for p, k in zip(grp, stores):
+                i = prog[k]
+                folded = (k == prev + 1) and i["a"][2][0] == "v"
+                cases.append(dict(p, got=i["a"][2][1] if folded else ["dyn"]))
+                cmeta.append((p, code.split("\n")[prev + 1:k + 1]))
+                prev = k
+        else:
+            for p, c1 in pieces:
+                if c1 is None:
+                    nerr += 1
+                    continue
+                prog = ic10load.load(c1)
+                i = prog[-1]
+                folded = len(prog) == 1 and i["op"] == "s" and i["a"][2][0] == "v"
+                cases.append(dict(p, got=i["a"][2][1] if folded else ["dyn"]))
+                cmeta.append((p, c1.split("\n")))
+    mut = dict(next(c for c in cases if c["got"] != ["dyn"] and c["op"] == "add"))
+    mut["got"] = [mut["got"][0] + 1, mut["got"][1]] if len(mut["got"]) == 2 else [7, 1]
+    r = CT.tlc("C03_judge", "FoldGrid", "SPECIFICATION SpecJudge\nCHECK_DEADLOCK FALSE\n", files={"cases.json": cases + [mut]}, workers=8, timeout=1800)
+    if not r.ok:
+        raise MachineryError("FoldGrid.tla (judge) failed:\n" + r.out[-3000:])
+    tv = r.verdicts()
+    if "FOLDED_VALUE_DIFFERS" not in tv.get(len(cases) + 1, set()):
+        raise MachineryError("binding self-test failed: FoldGrid.tla accepted a corrupted literal (%s)" % tv.get(len(cases) + 1))
+    nfolded = nfrac = ninc = 0
+    bad = 0
+    for k in range(1, len(cases) + 1):
+        vs = tv.get(k, set()) - {"reported"}
+        if not vs:
+            raise MachineryError("no verdict for grid point %d" % k)
+        p, lines = cmeta[k - 1]
+        for vd in vs:
+            if vd == "NOT_FOLDED":
+                continue
+            nfolded += 1
+            if vd.startswith("INCONCLUSIVE"):
+                ninc += 1
+                continue
+            if vd == "INEXACT_NEEDS_ROUNDING_ORACLE":
+                # the exact result is not a double: compare to 15 significant digits with exact fractions (oracle=fraction)
+                nfrac += 1
+                ok = False
+                gtok = ic10load.tokenize(lines[-1])[-1] if lines else ""
+                gv = ic10load.number_value(gtok)
+                if gv is not None:
+                    try:
+                        ev = eval_fraction(p)
+                        ok = ev is not None and (abs(gv - ev) <= abs(ev) * Fraction(1, 10**15))
+                    except ZeroDivisionError:
+                        ok = True
+                if ok:
+                    continue
+                vd = "FOLDED_VALUE_DIFFERS"
+            if vd == "OK":
+                continue
+            if rep.violation(["grid:" + p["op"], "grid:%s:%s" % (p["op"], expr_of(p))], vd,
+                             {"property": "C03", "expression": expr_of(p), "point": p, "emitted": lines, "verdict": vd},
+                             "expression `%s` emitted `%s`: %s" % (expr_of(p), " / ".join(x.strip() for x in lines)[:80], vd)):
+                bad += 1
+    # ---- part 2: propagation shapes against the source machine ----------------------------------
+    vecs = [cw.REF, cw.opts(inline_functions=True), cw.opts(inline_functions=True, remove_labels=True, compact=True)]
+    items, outside, nerr2 = source_items(fold_shapes(), vecs)
+    # ---- part 3: literal operands vs operands loaded from devices --------------------------------
+    sample = [p for p in pts if p["op"] not in ("pow",)]
+    rnd.shuffle(sample)
+    by_op = {}
+    for p in sample:
+        by_op.setdefault(p["op"], []).append(p)
+    chosen = [p for op, ps in sorted(by_op.items()) for p in ps[: (6 if tier == "thorough" else 2)]]
+    pj = []
+    for p in chosen:
+        c, d = guarded_pair(p)
+        pj += [{"src": c, "options": cw.REF}, {"src": d, "options": cw.REF}]
+    pres = cw.compile_many(pj)
+    pair_items = []
+    for k, p in enumerate(chosen):
+        ca, cb = CL.code_of(pres[2 * k]), CL.code_of(pres[2 * k + 1])
+        if ca is None or cb is None:
+            continue
+        dom = [p["a"]] + ([p["b"]] if p["b"] != p["a"] else []) + [[7, 1]]
+        pair_items.append({"name": "pair_" + p["op"], "tag": expr_of(p), "src": pj[2 * k]["src"], "a_text": ca, "b_text": cb,
+                           "case": equiv.make_case(ic10load.load(ca), ic10load.load(cb), dom=dom),
+                           "sample": {"const_program": pj[2 * k]["src"], "dynamic_program": pj[2 * k + 1]["src"]}})
+    pv, pst = equiv.run_cases("C03_pairs", [it["case"] for it in pair_items], batches=8, workers=2, timeout=600, single_timeout=60)
+    for it, vs in zip(pair_items, pv):
+        for v in sorted(vs):
+            if equiv.is_violation(v):
+                if rep.violation([it["name"], "grid:" + it["name"][5:], "pair:" + it["tag"]], v,
+                                 {"property": "C03", "expression": it["tag"], "const_program": it["src"], "const_emitted": it["a_text"],
+                                  "dynamic_emitted": it["b_text"], "verdict": v},
+                                 "`%s`: literal operands and device-loaded operands behave differently: %s" % (it["tag"], v)):
+                    bad += 1
+    rc2 = 0
+    extra = {"grid_points_compiled": len(cases), "grid_points_folded_by_the_compiler": nfolded, "oracle_fraction": nfrac,
+             "grid_inconclusive": ninc, "grid_states": g.distinct + r.distinct, "const_vs_dynamic_pairs": len(pair_items),
+             "pair_states": pst["states"], "compile_errors_skipped": nerr + nerr2, "outside_dialect": outside,
+             "grid_sample": [{"expression": expr_of(cmeta[k][0]), "emitted": cmeta[k][1]} for k in (0, len(cmeta) // 2)]}
+    rule = ("(1) FoldGrid.tla enumerates operator x operand-class points; each is compiled as `d0.Setting = a OP b`; when the compiler "
+            "printed a literal TLC compares it with the IC10 ALU applied to the operands (exact for dyadic results, 15 digits with "
+            "exact fractions otherwise); (2) propagation shapes (variables, arguments, returns, lists, conditions, globals changed by "
+            "calls) run as source machine x emitted text; (3) guarded pairs literal operands vs device-loaded operands run as two "
+            "IC10 machines over one environment")
+    rc = run_source_check_merge("C03", tier, t0, items, rule, extra, rep, bad)
+    return rc
+
+
+def eval_fraction(p):
+    from fractions import Fraction
+    a, b = Fraction(*p["a"]), Fraction(*p["b"])
+    op = p["op"]
+    if op == "div":
+        return a / b
+    if op == "pow":
+        return a ** int(b) if b.denominator == 1 else None
+    if op == "mul":
+        return a * b
+    if op == "add":
+        return a + b
+    if op == "sub":
+        return a - b
+    return None
+
+
+def run_source_check_merge(pid, tier, t0, items, rule, extra, rep0, bad0):
+    """run_source_check, with violations already collected by rep0 merged into the result"""
+    rc = run_source_check(pid, tier, t0, items, rule, dict(extra, static_violations=bad0))
+    rc0 = rep0.finish()
+    if bad0 and os.environ.get("VERIF_NO_EVIDENCE") != "1":
+        p = os.path.join(os.path.dirname(os.path.abspath(__file__)), "..", "evidence", pid + ".json")
+        ev = json.load(open(p))
+        ev["violations"] = ev.get("violations", 0) + bad0
+        json.dump(ev, open(p, "w"), indent=1, sort_keys=True)
+    return 1 if (rc or rc0) else 0
+
+
+import os  # noqa: E402
+
+CHECKS["C03"] = check_c03
